@@ -757,6 +757,121 @@ theorem leafRead_inv (W : World Node VH V) (ht : Ht) (m : Mux Node VH V) (aw : N
       cases this
       exact .inr ⟨l, hg, rfl⟩
 
+/-! ### one iteration of the query loop is `Sys.step` -/
+
+theorem step_nq_panic (env : Env Node VH V) (s : Sys Node VH V) (i : Nat) (r : Req Node VH V) (x : String)
+    (hsi : s.reqs[i]? = some (r, none)) (hq : nextQuery r = .panic x) : step env s i = .panic x := by
+  unfold step; rw [hsi]; simp only [hq]
+
+theorem step_nq_err (env : Env Node VH V) (s : Sys Node VH V) (i : Nat) (r : Req Node VH V) (x : Unit)
+    (hsi : s.reqs[i]? = some (r, none)) (hq : nextQuery r = .err x) : step env s i = .err x := by
+  unfold step; rw [hsi]; simp only [hq]
+
+theorem step_leaf (env : Env Node VH V) (s : Sys Node VH V) (i : Nat) (r r1 : Req Node VH V) (l : Nat)
+    (hsi : s.reqs[i]? = some (r, none)) (hq : nextQuery r = .ok (r1, some (.leaf l))) :
+    step env s i = .ok (setReq s i (r1, some (.leaf l)), .needLeaf l) := by
+  unfold step; rw [hsi]; simp only [hq]
+
+theorem step_page (env : Env Node VH V) (m : Mux Node VH V) (aw : Nat → Option Query) (i : Nat) (r r1 : Req Node VH V)
+    (pid : PageId) (hsi : (absSys m aw).reqs[i]? = some (r, none)) (hq : nextQuery r = .ok (r1, some (.page pid))) :
+    (∀ pg psX, memPage env m pid = some (pg, psX) → ∃ src, step env (absSys m aw) i =
+      (match continueSeek env psX r1 pid pg with
+       | .panic x => .panic x
+       | .err e => .err e
+       | .ok (ps', r') =>
+         .ok ({ ps := ps', cache := m.cache, reqs := (absSys m aw).reqs.set i (r', none) }, .continued pid src))) ∧
+    (memPage env m pid = none → step env (absSys m aw) i =
+      .ok (setReq (absSys m aw) i ({ r1 with ios := r1.ios + 1 }, some (.page pid)), .needPage pid)) := by
+  have hps : (absSys m aw).ps = m.ps := rfl
+  have hca : (absSys m aw).cache = m.cache := rfl
+  constructor
+  · intro pg psX hmp
+    unfold step
+    rw [hsi]
+    simp only [hq, hps, hca]
+    unfold memPage at hmp
+    cases h1 : m.ps.get pid with
+    | some x =>
+      obtain ⟨pg0, o⟩ := x
+      rw [h1] at hmp
+      simp only [Option.some.injEq, Prod.mk.injEq] at hmp
+      obtain ⟨rfl, rfl⟩ := hmp
+      refine ⟨.set, ?_⟩
+      first | rfl | (dsimp only)
+    | none =>
+      rw [h1] at hmp
+      simp only at hmp
+      cases h2 : env.ovPages.lookup pid with
+      | some pg0 =>
+        rw [h2] at hmp
+        simp only [Option.some.injEq, Prod.mk.injEq] at hmp
+        obtain ⟨rfl, rfl⟩ := hmp
+        refine ⟨.ovl, ?_⟩
+        first | rfl | (dsimp only)
+      | none =>
+        rw [h2] at hmp
+        simp only at hmp
+        cases h3 : m.cache.lookup pid with
+        | some pg0 =>
+          rw [h3] at hmp
+          simp only [Option.some.injEq, Prod.mk.injEq] at hmp
+          obtain ⟨rfl, rfl⟩ := hmp
+          refine ⟨.cache, ?_⟩
+          first | rfl | (dsimp only)
+        | none => rw [h3] at hmp; cases hmp
+  · intro hmp
+    unfold step
+    rw [hsi]
+    simp only [hq, hps, hca]
+    unfold memPage at hmp
+    cases h1 : m.ps.get pid with
+    | some x => obtain ⟨pg0, o⟩ := x; rw [h1] at hmp; cases hmp
+    | none =>
+      rw [h1] at hmp
+      simp only at hmp
+      cases h2 : env.ovPages.lookup pid with
+      | some pg0 => rw [h2] at hmp; cases hmp
+      | none =>
+        rw [h2] at hmp
+        simp only at hmp
+        cases h3 : m.cache.lookup pid with
+        | some pg0 => rw [h3] at hmp; cases hmp
+        | none => rfl
+
+theorem pageFacts_of_wait (W : World Node VH V) (hOK : W.OK) (ps : PageSet Node) (r : Req Node VH V) (pid : PageId)
+    (h : ReqOK W ps r (some (.page pid))) : PageFacts W pid := by
+  obtain ⟨hst, h6, h2, hC, hg, hov, hUd⟩ := awaiting_page h
+  subst hC
+  have hd := h.1.wf.depthLe
+  obtain ⟨pg, hU, _⟩ := live_page_good hOK ps r.key r.pos.depth h.1.klen hd h6 h2 hg
+  refine ⟨hov, hUd, pg, hU, fun ps' => ?_⟩
+  obtain ⟨pg', hU', hg'⟩ := live_page_good hOK ps' r.key r.pos.depth h.1.klen hd h6 h2 hg
+  rw [hU] at hU'; cases hU'; exact hg'
+
+theorem probeOK_start (W : World Node VH V) (ht : Ht) (hHt : HtOK W ht) (pid : PageId) (hpf : PageFacts W pid) :
+    ProbeOK ht pid 0 false := by
+  obtain ⟨pg, hU, _⟩ := hpf.good
+  obtain ⟨j, b, h1, h2, h3⟩ := hHt pid pg (by rw [← hpf.ud]; exact hU)
+  exact ⟨j, b, h1, h2, h3, by simp⟩
+
+/-- the request goes on after an in-memory step -/
+theorem cont_inv (W : World Node VH V) (ht : Ht) (m : Mux Node VH V) (aw : Nat → Option Query) (h : MInv W ht m aw)
+    (idx : Nat) (hp : m.processed ≤ idx) (ha : aw idx = none) (ps' : PageSet Node) (r' : Req Node VH V)
+    (hs : SysInv W { ps := ps', cache := m.cache, reqs := (absSys m aw).reqs.set (idx - m.processed) (r', none) }) :
+    MInv W ht { m with ps := ps', reqs := m.reqs.set (idx - m.processed) r' } aw := by
+  refine ⟨?_, h.wkeys, ?_, h.idleN, ?_, h.slabwf, h.merk, h.inflN, h.infl, h.idleLN, h.idleL⟩
+  · have : absSys { m with ps := ps', reqs := m.reqs.set (idx - m.processed) r' } aw =
+        { ps := ps', cache := m.cache, reqs := (absSys m aw).reqs.set (idx - m.processed) (r', none) } := by
+      simp only [absSys]
+      rw [tag_set, show m.processed + (idx - m.processed) = idx by omega, ha]
+    rw [this]; exact hs
+  · intro q w hqw
+    simp only [List.length_set]
+    exact h.wmem q w hqw
+  · intro idx' hidx'
+    simp only [List.length_set]
+    exact h.idle idx' hidx'
+
 end inv
 
 end Nomt.Seeker
